@@ -2,6 +2,7 @@ package gen
 
 import (
 	"fmt"
+	"strings"
 
 	"pgregory.net/rapid"
 
@@ -298,6 +299,9 @@ func Program(t *rapid.T, cfg AsmConfig) rc.Program {
 	for k := 0; k < ns; k++ {
 		pos := rapid.IntRange(0, len(items)).Draw(t, "stratpos")
 		s := rc.Item{Kind: rc.KMeta, Text: "strategy", Arg: rapid.SampledFrom([]string{"bomb everything", "line two: x -> y", "1", "  indented text", "na\u00efve bomber \u2014 \u00bd core, then \u03bb-scan"}).Draw(t, "strat")}
+		if Rare(t, "longstrategy", 5) {
+			s.Arg = strings.Repeat("a very long plan; ", 400) + "the end"
+		}
 		items = append(items[:pos], append([]rc.Item{s}, items[pos:]...)...)
 	}
 	// entry point
